@@ -187,6 +187,23 @@ class Cookie:
         return f"<Cookie {self.name}: {self.value}>"
 
 
+class RawCookie:
+    """
+    A Set-Cookie line that is passed on as it was received (see the middlewares).
+    """
+
+    __slots__ = ("line",)
+
+    def __init__(self, line: str) -> None:
+        self.line = line
+
+    def __str__(self) -> str:
+        return self.line
+
+    def __bytes__(self) -> bytes:
+        return self.line.encode("latin-1")
+
+
 class URL:
     __slots__ = ("_url", "_components")
 
